@@ -31,6 +31,8 @@ pub struct Outcome
 	/// `Err(anyhow)` from the generator or Compiler
 	pub internal_error: Option<String>,
 	pub resolved: Vec<Vec<penne::alpha::resolved::Declaration>>,
+	/// the diagnostics themselves (errors, or lints of accepted modules)
+	pub raw: Vec<penne::alpha::Error>,
 }
 
 impl Outcome
@@ -113,6 +115,7 @@ pub fn compile_modules(files: &[(String, String)], opts: Options) -> Outcome
 		out.stage = "surface";
 		out.codes = errors.codes();
 		out.diags = errors.errors.iter().map(diag_of).collect();
+		out.raw = errors.errors;
 		return out;
 	}
 	let mut compiler = Compiler::default();
@@ -151,12 +154,14 @@ pub fn compile_modules(files: &[(String, String)], opts: Options) -> Outcome
 			{
 				out.codes = errors.codes();
 				out.diags = errors.errors.iter().map(diag_of).collect();
+				out.raw = errors.errors;
 				return out;
 			}
 		};
 		for l in compiler.take_lints()
 		{
 			out.lints.push(diag_of(&l));
+			out.raw.push(l);
 		}
 		out.stage = "generate";
 		if let Err(e) = compiler.compile(&declarations)
